@@ -51,6 +51,12 @@ def border_job(job):
         # row / column - anchor and placeholders; the table is one line longer so that the rectangle is two lines deep
         if line + 1 < size:
             tb.merge_cells("A%d:%s%d" % (line + 1, colname(n - 2), line + 2) if orient == "h" else "%s1:%s%d" % (colname(line), colname(line + 1), n - 1))
+    elif merged == 3:
+        from ..wb import colname
+        # a merged range ONE line deep on the far side of the line under test: its outer edge is the line, and its first cell
+        # (the anchor) owns that edge as its bottom / right border
+        if line >= 1:
+            tb.merge_cells("A%d:%s%d" % (line, colname(n - 2), line) if orient == "h" else "%s1:%s%d" % (colname(line - 1), colname(line - 1), n - 1))
     elif merged:
         from ..wb import colname
         # a merged rectangle next to, but not on, the edges under test (they are in columns/rows 0..n-1)
@@ -500,7 +506,7 @@ def run(ctx):
         line = rng.choice([0, 1, 2, N])      # the table's outer edge, inner lines, the last line (beyond the last cell: bottom/right edge)
         if line == N:
             line = N - 1 if rng.random() < 0.5 else 2
-        jobs.append((i, h, orient, line, N, ctx.seed * 3 + i, ctx.scratch, 1 if i % 5 == 0 else 2 if i % 5 in (1, 3) else 0))
+        jobs.append((i, h, orient, line, N, ctx.seed * 3 + i, ctx.scratch, 1 if i % 5 == 0 else 2 if i % 5 == 1 else 3 if i % 5 == 3 else 0))
     btr = fixtures.pmap(border_job, jobs, ctx.workers, chunksize=4)
     ctx.evaluations += len(btr)
     # a longer line (6 positions, two strokes): an earlier stroke that neither starts at the first position nor reaches the last one,
